@@ -241,7 +241,8 @@ Proof.
   destruct (has_null_enum w) eqn:Een; [discriminate|].
   destruct (vr_skip_none vr && (is_vnone w && negb (is_vnone (lf_def lf)) || none_loss (top_fill (lf_ty lf)) (lf_ty lf) w
                               || sub_none_loss (lf_def lf) w)) eqn:E1; [discriminate|].
-  destruct (veq w (lf_def lf) && negb (leaf_stable_b yl (vr_skip_none vr) lf w)) eqn:E8; [discriminate|].
+  destruct (negb (leaf_stable_b yl (vr_skip_none vr) lf (lf_def lf)) && (veq w (lf_def lf) || vr_skip_default vr)) eqn:E8;
+    [discriminate|].
   destruct (N.eqb (skipdef_class yl vr lf w) 0) eqn:Esd; simpl in Hc;
     [apply N.eqb_eq in Esd|apply N.eqb_neq in Esd; congruence].
   assert (Hpresent : forall j, dump_entry yl vr lf w = EPresent j ->
